@@ -7,7 +7,7 @@ import warnings
 import numpy as np
 import xarray as xr
 
-from .. import builders
+from .. import builders, sequences
 from ..runner import LibraryRaised, Recorder, lib
 
 PROPERTY = 'C13'
@@ -25,6 +25,7 @@ RULE = (
     "state after two applications only depends on the last non-None request per aspect, input dataset "
     "unmodified.  Non-trivial: calls that flip sign and order together; attribute-absent coordinates."
     ' Also: arguments given as tuple / generator / iterator / map / data arrays, numpy-array valued attributes on the coordinates.'
+    " Also (operation sequences, mc/sequences.py): for 8 base datasets and every sequence `first [middle] query` over 36 operations (queries, in-place edits a user makes, transforms whose result is used next; quick length 2, thorough length 3) ending in one of this property's own queries, the answer on the one used object equals the answer on a never-used rebuild. Second phase: the first case of every distinct outcome and kind (thorough: every case, for expensive checks every kind) again with debug logging enabled, under numpy.errstate(all='ignore'), and in python -O child interpreters."
 )
 LEVEL_TEXT = ("every depth-coordinate variant of the stated product x all 9 option pairs x all 81 two-step histories, with "
               "physical-layer labels as oracle for data, coordinate, bounds, purity and idempotence")
@@ -38,7 +39,7 @@ def bounds(tier):
     return {'levels': [2, 3, 4], 'option_pairs': 9, 'history_length': 2}
 
 
-def cases(tier):
+def _cases_first_call(tier):
     out = []
     for positive, deep_first, with_bounds, separate, levels in itertools.product(
             ('down', 'up', None), (False, True), (False, True), (False, True), (2, 3, 4)):
@@ -203,7 +204,7 @@ def orientation_of(info, state):
     return {name: (info[name]['sign'] > 0) != state[name][1] for name in info}
 
 
-def run_case(case):
+def _run_case_first_call(case):
     rec = Recorder()
     from emsarray.operations import depth
     if case['kind'] == 'accessor':
@@ -319,3 +320,16 @@ def run_accessor(case, rec):
         rec.check(ds.identical(snapshot), f"{fp}/input-modified", f"{label}: input modified", 'unchanged', 'changed')
     rec.outcome([truth.family, 'accessor'])
     return rec.result()
+
+
+def cases(tier):
+    # first calls on freshly built datasets, then operation sequences on one object (mc/sequences.py)
+    return _cases_first_call(tier) + sequences.cases_for(PROPERTY, tier)
+
+
+def run_case(case):
+    if case.get('part') == 'sequence':
+        rec = Recorder()
+        sequences.run_case(PROPERTY, case, rec)
+        return rec.result()
+    return _run_case_first_call(case)
